@@ -21,7 +21,7 @@ PID = 'C12'
 LEAN_TARGETS = ['CfVerif.Props.C12']
 PROPS_MODULES = ['CfVerif.Props.C12']
 DRIVER = 'Driver/C12.lean'
-REQUIRED_THEOREMS = []
+REQUIRED_THEOREMS = ['CfVerif.C12.refused_if_too_big']
 TRUSTED = []
 ASSUMPTIONS = []
 RULE = ''
@@ -34,8 +34,9 @@ CRTP = 'cflib/crtp/crtpstack.py'
 # ------------------------------------------------------------------------------------------------------
 # Tie A
 # ------------------------------------------------------------------------------------------------------
-def _iexpr(e, env):
-    """integer expression -> Lean term over Int.  Supports names/attributes in env, int literals, + - *,
+def _iexpr(e, env, nat=False):
+    """integer expression -> Lean term over Int (or over Nat when nat=True: then `-` is rejected, all operands
+    being non-negative by construction).  Supports names/attributes in env, int literals, + - *,
     `len(image)`-style calls listed in env and `int(a / b)` (float division then truncation: exact for
     |a| < 2^53, b != 0; translated to Int.tdiv, division by zero is checked by the model before use)."""
     def go(n):
@@ -45,11 +46,13 @@ def _iexpr(e, env):
         if isinstance(n, ast.Constant) and isinstance(n.value, int) and not isinstance(n.value, bool):
             return str(n.value) if n.value >= 0 else '(%d)' % n.value
         if isinstance(n, ast.BinOp) and isinstance(n.op, (ast.Add, ast.Sub, ast.Mult)):
+            if nat and isinstance(n.op, ast.Sub):
+                raise ExtractError('subtraction in an expression the model evaluates over Nat: ' + s)
             op = {ast.Add: '+', ast.Sub: '-', ast.Mult: '*'}[type(n.op)]
             return '(%s %s %s)' % (go(n.left), op, go(n.right))
         if isinstance(n, ast.Call) and isinstance(n.func, ast.Name) and n.func.id == 'int' and len(n.args) == 1 \
                 and isinstance(n.args[0], ast.BinOp) and isinstance(n.args[0].op, ast.Div):
-            return '(Int.tdiv %s %s)' % (go(n.args[0].left), go(n.args[0].right))
+            return ('(%s / %s)' if nat else '(Int.tdiv %s %s)') % (go(n.args[0].left), go(n.args[0].right))
         raise ExtractError('untranslatable integer expression: ' + s)
     return go(e)
 
@@ -57,9 +60,9 @@ def _iexpr(e, env):
 _CMP = {ast.Gt: '>', ast.GtE: '≥', ast.Lt: '<', ast.LtE: '≤', ast.Eq: '=', ast.NotEq: '≠'}
 
 
-def _icmp(e, env):
+def _icmp(e, env, nat=False):
     X.expect(isinstance(e, ast.Compare) and len(e.ops) == 1 and type(e.ops[0]) in _CMP, 'untranslatable comparison: ' + ast.unparse(e))
-    return 'decide (%s %s %s)' % (_iexpr(e.left, env), _CMP[type(e.ops[0])], _iexpr(e.comparators[0], env))
+    return 'decide (%s %s %s)' % (_iexpr(e.left, env, nat), _CMP[type(e.ops[0])], _iexpr(e.comparators[0], env, nat))
 
 
 def _calls(node, suffix):
@@ -108,7 +111,7 @@ def extract(ctx):
     cmp_ = _one([n for n in ast.walk(ub) if isinstance(n, ast.Compare)], 'comparison in upload_buffer')
     X.expect(isinstance(cmp_.left, ast.Name) and cmp_.left.id == 'count' and isinstance(cmp_.comparators[0], ast.Constant),
              'upload_buffer: flush test is not `count <op> <literal>`')
-    g.raw('def uploadFull (count : Nat) : Bool := ' + _icmp(cmp_, {'count': 'count'}))
+    g.raw('def uploadFull (count : Nat) : Bool := ' + _icmp(cmp_, {'count': 'count'}, nat=True))
     g.nat('uploadFlushAt', cmp_.comparators[0].value)
     g.strings('uploadCountUpdates', [ast.unparse(n) for n in sorted((m for m in ast.walk(ub) if isinstance(m, (ast.AugAssign, ast.Assign)) and ast.unparse(m.targets[0] if isinstance(m, ast.Assign) else m.target) == 'count'), key=lambda m: m.lineno)])
     g.strings('uploadSends', [ast.unparse(c) for c in _calls(ub, 'link.send_packet')])
@@ -188,28 +191,28 @@ def extract(ctx):
     X.expect(len(ups) == 2 and all(len(u.args) == 4 for u in ups), '_internal_flash: expected two upload_buffer calls')
     part = [n for n in loop.body if isinstance(n, ast.If) and any(u in list(ast.walk(n)) for u in ups)]
     X.expect(len(part) == 1 and ups[0] in list(ast.walk(part[0].body[0])) and ups[1] in list(ast.walk(part[0].orelse[0])), '_internal_flash: partial/full page upload branches changed')
-    g.raw('def lastPartial (i pageSize len : Int) : Bool := ' + _icmp(part[0].test, env))
+    g.raw('def lastPartial (i pageSize len : Nat) : Bool := ' + _icmp(part[0].test, env, nat=True))
     g.strings('uploadCallArgs0', [ast.unparse(a) for a in ups[0].args[:3]])
     g.strings('uploadCallArgs1', [ast.unparse(a) for a in ups[1].args[:3]])
     for k, u in enumerate(ups):
         sl = u.args[3]
         X.expect(isinstance(sl, ast.Subscript) and ast.unparse(sl.value) == 'image' and isinstance(sl.slice, ast.Slice) and sl.slice.step is None
                  and sl.slice.lower is not None, '_internal_flash: upload_buffer data is not a slice image[a:b]')
-        g.raw('def slice%dLo (i pageSize : Int) : Int := %s' % (k, _iexpr(sl.slice.lower, env)))
+        g.raw('def slice%dLo (i pageSize : Nat) : Nat := %s' % (k, _iexpr(sl.slice.lower, env, nat=True)))
         if k == 0:
             X.expect(sl.slice.upper is None, '_internal_flash: the partial-page slice has an upper bound')
         else:
             X.expect(sl.slice.upper is not None, '_internal_flash: the full-page slice has no upper bound')
-            g.raw('def slice1Hi (i pageSize : Int) : Int := ' + _iexpr(sl.slice.upper, env))
+            g.raw('def slice1Hi (i pageSize : Nat) : Nat := ' + _iexpr(sl.slice.upper, env, nat=True))
     g.strings('ctrUpdates', [ast.unparse(n) for n in sorted((m for m in ast.walk(fl) if isinstance(m, (ast.AugAssign, ast.Assign)) and ast.unparse(m.targets[0] if isinstance(m, ast.Assign) else m.target) == 'ctr'), key=lambda m: m.lineno)])
     wfs = _calls(fl, '_cload.write_flash')
     X.expect(len(wfs) == 2 and all(len(w.args) == 4 for w in wfs), '_internal_flash: expected two write_flash calls')
     fl_if = [n for n in loop.body if isinstance(n, ast.If) and wfs[0] in list(ast.walk(n))]
     X.expect(len(fl_if) == 1 and isinstance(fl_if[0].test, ast.Compare), '_internal_flash: in-loop flush condition not found')
-    g.raw('def flushDue (ctr bufferPages : Int) : Bool := ' + _icmp(fl_if[0].test, env))
+    g.raw('def flushDue (ctr bufferPages : Nat) : Bool := ' + _icmp(fl_if[0].test, env, nat=True))
     fin_if = [n for n in fl.body if isinstance(n, ast.If) and wfs[1] in list(ast.walk(n))]
     X.expect(len(fin_if) == 1 and fin_if[0].lineno > loop.end_lineno and isinstance(fin_if[0].test, ast.Compare), '_internal_flash: final flush after the loop not found')
-    g.raw('def finalFlushDue (ctr : Int) : Bool := ' + _icmp(fin_if[0].test, env))
+    g.raw('def finalFlushDue (ctr : Nat) : Bool := ' + _icmp(fin_if[0].test, env, nat=True))
     g.strings('flushCallArgs0', [ast.unparse(a) for a in wfs[0].args])
     g.strings('flushCallArgs1', [ast.unparse(a) for a in wfs[1].args])
     g.raw('def flushPage (startPage i ctr : Int) : Int := ' + _iexpr(wfs[0].args[2], env))
@@ -222,3 +225,498 @@ def extract(ctx):
         fails.append('raise' if isinstance(holder[0].body[-1], ast.Raise) and not holder[0].orelse else 'continue')
     g.strings('flushFailAction', fails)
     return {'C12.lean': g.render()}
+
+
+# ------------------------------------------------------------------------------------------------------
+# Tie B: environment twin (Python twin of Spec/C12.lean) and the real-code runner
+# ------------------------------------------------------------------------------------------------------
+def flash_pat(seed, q, o):
+    return (q * 7 + o * 13 + seed) % 251
+
+
+def buf_pat(seed, q, o):
+    return (q * 3 + o * 5 + seed + 101) % 253
+
+
+class Twin:
+    """Bootloader target (buffers + flash as byte maps over an initial pattern) + outcome script + late queue.
+    Outcome = (exec: bool, reply: None | (hdr, bytes), late: bool).  Written from the protocol, like the Lean Spec."""
+
+    def __init__(self, tid, seed, script):
+        self.tid = tid
+        self.seed = seed
+        self.script = list(script)
+        self.late = []
+        self.bufov = {}        # buffer page -> {offset: byte}
+        self.flashpg = {}      # flash page -> (source buffer page, {offset: byte})   (pages programmed so far)
+        self.exec_log = []     # (bp, fp, n) of executed flash-writes
+        self.cmds = []         # decoded commands in arrival order
+
+    def decode(self, hdr, d):
+        if hdr != 0xFF or len(d) < 2 or d[0] != self.tid:
+            return None
+        if d[1] == 0x14 and len(d) >= 6:
+            return ('load', d[2] | d[3] << 8, d[4] | d[5] << 8, bytes(d[6:]))
+        if d[1] == 0x18 and len(d) == 8:
+            return ('write', d[2] | d[3] << 8, d[4] | d[5] << 8, d[6] | d[7] << 8)
+        return None
+
+    def on_send(self, hdr, d):
+        c = self.decode(hdr, d)
+        if c is None:
+            return []
+        self.cmds.append(c)
+        if c[0] == 'load':
+            ov = self.bufov.setdefault(c[1], {})
+            for j, b in enumerate(c[3]):
+                ov[c[2] + j] = b
+            return []
+        _, bp, fp, n = c
+        o = self.script.pop(0) if self.script else (True, (0xFF, bytes([self.tid & 0xFF, 0x18, 1, 0])), False)
+        if o[0]:
+            self.exec_log.append((bp, fp, n))
+            for k in range(n):
+                self.flashpg[fp + k] = (bp + k, dict(self.bufov.get(bp + k, {})))
+        if o[1] is None:
+            return []
+        if o[2]:
+            self.late.append(o[1])
+            return []
+        return [o[1]]
+
+    def on_wait_done(self):
+        r, self.late = self.late, []
+        return r
+
+    def flash(self, q, o):
+        if q in self.flashpg:
+            src, ov = self.flashpg[q]
+            return ov[o] if o in ov else buf_pat(self.seed, src, o)
+        return flash_pat(self.seed, q, o)
+
+    def buf(self, q, o):
+        ov = self.bufov.get(q, {})
+        return ov[o] if o in ov else buf_pat(self.seed, q, o)
+
+    def flash_page(self, q, ps):
+        return bytes(self.flash(q, o) for o in range(ps))
+
+    def buf_page(self, q, ps):
+        return bytes(self.buf(q, o) for o in range(ps))
+
+
+class FakeLink:
+    """The boundary object the bootloader code calls: send_packet / receive_packet(timeout)."""
+
+    def __init__(self, twin, inbox=()):
+        self.twin = twin
+        self.inbox = list(inbox)
+        self.sent = []
+        self.timeouts = []
+
+    def send_packet(self, pk):
+        d = bytes(pk.data)
+        self.sent.append((pk.header, d))
+        self.inbox.extend(self.twin.on_send(pk.header, d))
+
+    def receive_packet(self, wait=0):
+        from cflib.crtp.crtpstack import CRTPPacket
+        self.timeouts.append(wait)
+        r = self.inbox.pop(0) if self.inbox else None
+        if wait != 0:
+            self.inbox.extend(self.twin.on_wait_done())
+        if r is None:
+            return None
+        return CRTPPacket(r[0], bytearray(r[1]))
+
+    def close(self):
+        pass
+
+
+def _quiet():
+    import logging
+    logging.disable(logging.CRITICAL)
+
+
+def show_pkts(pk):
+    return ';'.join('%d:%s' % (h, hexs(d)) for h, d in pk) or '-'
+
+
+def show_pages(fn, ps, pages):
+    return ';'.join('%d:%s' % (q, hexs(fn(q, ps))) for q in pages) or '-'
+
+
+TARGET_NAMES = {0xFF: 'stm32', 0xFE: 'nrf51', 0: 'other'}
+
+
+def run_real_flash(c):
+    """c: case dict (see gen).  Returns (result string, link, twin)."""
+    _quiet()
+    from cflib.bootloader import Bootloader, FlashArtifact, Target as ATarget
+    from cflib.bootloader.boottypes import Target as BTarget
+    tid = c['key']
+    twin = Twin(c['addr'] if 0 <= c['addr'] < 256 else -1, c['seed'], c['script'])
+    link = FakeLink(twin, c['inbox'])
+    bl = Bootloader(None)
+    bl._cload.link = link
+    if c.get('via_info'):
+        # geometry travels through the real getInfo handler (Cloader._update_info)
+        import struct as _s
+        link.inbox.append((0xFF, _s.pack('<BBHHHH', tid, 0x10, c['ps'], c['bp'], c['fp'], c['sp']) + bytes(12)))
+        assert bl._cload._update_info(tid)
+        link.sent.clear()
+        link.timeouts.clear()
+    else:
+        t = BTarget(tid)
+        t.addr = c['addr']
+        t.page_size, t.buffer_pages, t.flash_pages, t.start_page = c['ps'], c['bp'], c['fp'], c['sp']
+        bl._cload.targets[tid] = t
+    calls = {'progress': 0, 'term': 0}
+    if c['progress']:
+        def prog(msg, pct):
+            calls['progress'] += 1
+        bl.progress_cb = prog
+    if c['term'] is not None:
+        vals = list(c['term'])
+
+        def term():
+            calls['term'] += 1
+            return vals.pop(0) if vals else False
+        bl.terminate_flashing_cb = term
+    image = bytes(c['image']) if c['image_type'] == 'bytes' else (list(c['image']) if c['image_type'] == 'list' else bytearray(c['image']))
+    art = FlashArtifact(image, ATarget('cf2', TARGET_NAMES[tid], 'fw', [], []), None)
+    try:
+        with contextlib.redirect_stdout(io.StringIO()):
+            bl._internal_flash(art, 1, 1, c['override'])
+        res = 'done'
+    except Exception as e:
+        if type(e) is Exception and e.args == ('Not enough space to flash the image file',):
+            res = 'nospace'
+        elif type(e) is Exception and e.args == ('Flashing terminated',):
+            res = 'terminated'
+        elif type(e) is Exception and e.args == ():
+            res = 'failed:%d' % bl._cload.error_code
+        else:
+            res = 'err:' + exc_enum(e)
+    return res, link, twin
+
+
+def fmt_outcome(o):
+    s = ('1' if o[0] else '0') + ('l' if o[2] else 'n')
+    if o[1] is not None:
+        s += ':%d:%s' % (o[1][0], hexs(o[1][1]))
+    return s
+
+
+def flash_line(c):
+    return 'flash %d %d %d %d %d %s %s %s %s %d %s %s %s' % (
+        c['addr'], c['ps'], c['bp'], c['fp'], c['sp'], '-' if c['override'] is None else str(c['override']),
+        ''.join('1' if b else '0' for b in (c['term'] or [])) or '-', hexs(c['image']),
+        ','.join(fmt_outcome(o) for o in c['script']) or '-', c['seed'],
+        ','.join('%d:%s' % (h, hexs(d)) for h, d in c['inbox']) or '-',
+        ','.join(map(str, c['fprobe'])) or '-', ','.join(map(str, c['bprobe'])) or '-')
+
+
+def real_flash_reply(c):
+    res, link, twin = run_real_flash(c)
+    return '%s sent=%s flash=%s buf=%s left=%d inbox=%d late=%d' % (
+        res, show_pkts(link.sent), show_pages(twin.flash_page, c['ps'], c['fprobe']), show_pages(twin.buf_page, c['ps'], c['bprobe']),
+        len(twin.script), len(link.inbox), len(twin.late)), link, twin
+
+
+def real_upload(tid, page, address, buff):
+    _quiet()
+    from cflib.bootloader.cloader import Cloader
+    twin = Twin(-1, 0, [])
+    link = FakeLink(twin)
+    cl = Cloader(None)
+    cl.link = link
+    try:
+        cl.upload_buffer(tid, page, address, buff)
+        res = 'ok'
+    except Exception as e:
+        res = 'err:' + exc_enum(e)
+    return '%s sent=%s' % (res, show_pkts(link.sent))
+
+
+def real_wflash(addr, pb, tp, pc, script, inbox):
+    _quiet()
+    from cflib.bootloader.cloader import Cloader
+    twin = Twin(addr if 0 <= addr < 256 else -1, 0, script)
+    link = FakeLink(twin, inbox)
+    cl = Cloader(None)
+    cl.link = link
+    try:
+        r = cl.write_flash(addr, pb, tp, pc)
+        res = '%s:%d' % ('true' if r else 'false', cl.error_code)
+    except Exception as e:
+        res = 'err:' + exc_enum(e)
+    return '%s sent=%s left=%d inbox=%d late=%d' % (res, show_pkts(link.sent), len(twin.script), len(link.inbox), len(twin.late)), link
+
+
+# ------------------------------------------------------------------------------------------------------
+# case generation
+# ------------------------------------------------------------------------------------------------------
+def o_ok(tid, late=False):
+    return (True, (0xFF, bytes([tid, 0x18, 1, 0])), late)
+
+
+def o_neg(tid, code=3, late=False):
+    return (True, (0xFF, bytes([tid, 0x18, 0, code])), late)
+
+
+O_LOST = (False, None, False)
+O_RLOST = (True, None, False)
+
+
+def named_outcomes(tid):
+    return [('lost', O_LOST), ('rlost', O_RLOST), ('ok', o_ok(tid)), ('oklate', o_ok(tid, True)),
+            ('neg', o_neg(tid)), ('neglate', o_neg(tid, 7, True))]
+
+
+def noise_pkt(rng, tid):
+    """a packet that is NOT a positive flash-write reply of `tid` (received headers always have bits 2-3 set)"""
+    k = rng.randrange(8)
+    if k == 0:
+        return (0xFF, bytes([tid, 0x14, 1, 0]))                    # other command byte
+    if k == 1:
+        return (0xFF, bytes([(tid + 1) & 0xFF, 0x18, 1, 0]))       # other target
+    if k == 2:
+        return (0xFD | 0x0C, bytes([tid, 0x18, 1, 0]))             # other port/channel
+    if k == 3:
+        return (0xFF, bytes([tid]))                                # too short to be a reply
+    if k == 4:
+        return (0xFF, b'')
+    if k == 5:
+        return (0xFF, bytes([tid, 0x18, 2, 9]))                    # status neither 0 nor 1
+    if k == 6:
+        return (0x0C | (rng.randrange(16) << 4) | rng.randrange(4), bytes(rng.randrange(256) for _ in range(rng.randrange(0, 8))))
+    return (0xFF, bytes([tid, 0x10]) + bytes(rng.randrange(256) for _ in range(20)))   # an info reply
+
+
+def rand_outcome(rng, tid, malformed=False):
+    r = rng.random()
+    if malformed and r < 0.25:
+        # replies matching (tid, 0x18) but too short for data[3] / data[2]
+        return (rng.random() < 0.5, (0xFF, bytes([tid, 0x18] + [1] * rng.randrange(0, 2))), rng.random() < 0.3)
+    if malformed and r < 0.4:
+        return (False, (0xFF, bytes([tid, 0x18, 1, 0])), rng.random() < 0.3)     # positive reply without execution (not Genuine)
+    if r < 0.55:
+        return rng.choice(named_outcomes(tid))[1]
+    if r < 0.75:
+        return o_ok(tid, rng.random() < 0.3)
+    return (rng.random() < 0.6, noise_pkt(rng, tid), rng.random() < 0.4)
+
+
+def rand_script(rng, tid, malformed=False):
+    r = rng.random()
+    if r < 0.35:
+        return []
+    if r < 0.5:      # one flush fails after all attempts
+        pre = [o_ok(tid)] * rng.randrange(0, 3)
+        return pre + [rng.choice([O_LOST, O_RLOST]) for _ in range(6)] + [o_ok(tid)] * 2
+    n = rng.choice([1, 2, 3, 5, 6, 7, 9, 14])
+    return [rand_outcome(rng, tid, malformed) for _ in range(n)]
+
+
+def rand_inbox(rng, tid):
+    r = rng.random()
+    if r < 0.75:
+        return []
+    if r < 0.9:      # stale positive replies from "before"
+        return [(0xFF, bytes([tid, 0x18, 1, 0]))] * rng.randrange(1, 4)
+    return [noise_pkt(rng, tid) for _ in range(rng.randrange(1, 4))]
+
+
+REAL_GEOMS = [(0xFF, 1024, 10, 1024, 16), (0xFE, 1024, 1, 232, 88), (0xFE, 1024, 1, 232, 108)]
+
+
+def boundary_lengths(ps, bp, cap):
+    s = {0, 1, 2, 24, 25, 26, 49, 50, 51, cap - 1, cap, cap + 1, cap + ps}
+    for m in (ps, bp * ps, 2 * bp * ps, 3 * bp * ps, (bp + 1) * ps, (2 * bp + 1) * ps):
+        s.update((m - 1, m, m + 1))
+    return sorted(x for x in s if x >= 0)
+
+
+def n_pages(ln, ps):
+    return (ln - 1) // ps + 1 if ln >= 1 and ps > 0 else 0
+
+
+def mk_case(rng, key, ps, bp, fp, sp, ln, script=None, **kw):
+    c = {'key': key, 'addr': key, 'ps': ps, 'bp': bp, 'fp': fp, 'sp': sp, 'override': None, 'term': None, 'progress': rng.random() < 0.5,
+         'image': bytes(rng.randrange(256) for _ in range(ln)), 'image_type': rng.choice(['bytes', 'bytes', 'list', 'bytearray']),
+         'script': rand_script(rng, key) if script is None else script, 'seed': rng.randrange(1000), 'inbox': [], 'via_info': False}
+    c.update(kw)
+    return c
+
+
+def gen_flash_cases(ctx):
+    rng = ctx.rng
+    thorough = ctx.tier == 'thorough'
+    cases = []
+    # (a) small adversarial geometries x every length up to more than two buffer-fulls, fault-free + random faults
+    small = [(1, 1), (1, 3), (2, 2), (3, 1), (4, 3), (5, 2), (7, 4), (24, 2), (25, 1), (25, 3), (26, 2), (50, 2), (51, 1)]
+    if thorough:
+        small += [(ps, bp) for ps in (6, 8, 16, 49, 64, 75) for bp in (1, 2, 5)]
+    for (ps, bp) in small:
+        key = rng.choice([0xFF, 0xFE, 0])
+        sp = rng.randrange(0, 4)
+        top = (2 * bp + 1) * ps + 2
+        lens = range(0, top + 1) if (ps * bp <= 30 or thorough) else boundary_lengths(ps, bp, top)
+        for ln in lens:
+            fp = sp + n_pages(ln, ps) + rng.choice([0, 0, 1, 5])
+            cases.append(mk_case(rng, key, ps, bp, fp, sp, ln, script=[] if rng.random() < 0.5 else None))
+    # (b) capacity boundary: image exactly fills / exceeds by one the space from the effective start page
+    for _ in range(120 if thorough else 40):
+        ps, bp = rng.choice([1, 2, 4, 7, 25, 26, 32]), rng.randrange(1, 6)
+        fp, sp = rng.randrange(1, 12), rng.randrange(0, 12)
+        ov = rng.choice([None, None, rng.randrange(-2, fp + 3)])
+        s = sp if ov is None else ov
+        cap = max((fp - s) * ps, 0)
+        ln = max(0, cap + rng.choice([-1, 0, 0, 1, 1, ps]))
+        cases.append(mk_case(rng, rng.choice([0xFF, 0xFE]), ps, bp, fp, sp, ln, override=ov))
+    # (c) random geometry/length with faults, stale inbox, override, terminate callback, malformed replies
+    for _ in range(1500 if thorough else 260):
+        ps, bp = rng.choice([1, 2, 3, 4, 5, 8, 16, 24, 25, 26, 31, 50, 64]), rng.randrange(1, 6)
+        sp = rng.randrange(0, 5)
+        npg = rng.choice([1, 1, 2, bp, bp + 1, 2 * bp, 2 * bp + 1, 3 * bp])
+        ln = max(1, npg * ps - rng.choice([0, 0, 1, ps - 1, rng.randrange(ps)]))
+        fp = sp + n_pages(ln, ps) + rng.choice([0, 1, 3])
+        key = rng.choice([0xFF, 0xFE, 0])
+        kw = {}
+        if rng.random() < 0.2:
+            kw['override'] = rng.choice([sp, sp + 1, max(0, sp - 1), fp - n_pages(ln, ps), fp, -1])
+        if rng.random() < 0.3:
+            t = [False] * rng.randrange(0, npg + 2)
+            if rng.random() < 0.6:
+                t.append(True)
+            kw['term'] = t
+        kw['inbox'] = rand_inbox(rng, key)
+        malformed = rng.random() < 0.15
+        kw['script'] = rand_script(rng, key, malformed)
+        if rng.random() < 0.04:
+            kw['addr'] = rng.choice([256, -1, 1000])        # Target.addr outside a byte: struct.error
+        cases.append(mk_case(rng, key, ps, bp, fp, sp, ln, **kw))
+    # (d) degenerate geometry values the code can be handed
+    for (ps, bp, fp, sp, ln) in [(0, 1, 4, 0, 3), (4, 0, 9, 1, 9), (4, 1, 0, 0, 1), (4, 2, 70000, 65534, 9), (4, 2, 70000, 65535, 9),
+                                 (70000, 1, 3, 0, 5), (65535, 1, 3, 0, 30), (4, 65536, 9, 0, 5), (4, 70000, 9, 0, 5)]:
+        cases.append(mk_case(rng, 0xFF, ps, bp, fp, sp, ln, script=[]))
+    # (e) the real geometries (geometry through the real getInfo handler), lengths around page / buffer multiples
+    for (key, ps, bp, fp, sp) in REAL_GEOMS:
+        lens = [1, ps - 1, ps, ps + 1, 2 * ps + 1] + ([bp * ps, bp * ps + 1] if bp > 1 else [3 * ps])
+        if thorough:
+            lens += [2 * bp * ps - 1, 2 * bp * ps, 5 * ps + 7]
+        for ln in lens:
+            cases.append(mk_case(rng, key, ps, bp, fp, sp, ln, via_info=True, script=rand_script(rng, key) if rng.random() < 0.5 else []))
+        cases.append(mk_case(rng, key, ps, bp, sp + 2, sp, 2 * ps + 1, via_info=True, script=[]))      # does not fit
+    return cases
+
+
+def eff_start(c):
+    return c['sp'] if c['override'] is None else c['override']
+
+
+def probes(c, twin):
+    s, n = eff_start(c), n_pages(len(c['image']), c['ps'])
+    lo, hi = max(0, s - 1), max(0, s) + min(n, 40) + 2
+    fpr = set(range(lo, hi)) | set(twin.flashpg) | {0, c['fp'] - 1 if c['fp'] > 0 else 0, c['fp']}
+    fpr = sorted(fpr)
+    if c['ps'] >= 512:                       # keep the lines short for the real geometries
+        fpr = sorted(set(twin.flashpg) | {max(0, s - 1), s + n})[:14]
+    bpr = list(range(0, min(c['bp'], 5) + 1)) if c['ps'] < 512 else [0, min(c['bp'], 10)]
+    return fpr, bpr
+
+
+def real_flash_case(c):
+    res, link, twin = run_real_flash(c)
+    c['fprobe'], c['bprobe'] = probes(c, twin)
+    reply = '%s sent=%s flash=%s buf=%s left=%d inbox=%d late=%d' % (
+        res, show_pkts(link.sent), show_pages(twin.flash_page, c['ps'], c['fprobe']), show_pages(twin.buf_page, c['ps'], c['bprobe']),
+        len(twin.script), len(link.inbox), len(twin.late))
+    return reply, res, link, twin
+
+
+def gen_upload_cases(ctx):
+    rng = ctx.rng
+    cases = []
+    lens = list(range(0, 80)) + [99, 100, 101, 124, 125, 126, 1023, 1024, 1025]
+    for ln in lens:
+        tid = rng.choice([255, 254, 0, 255, 254, 17])
+        page = rng.choice([0, 1, 2, 9, 255, 256, 65535])
+        address = rng.choice([0, 0, 0, 1, 5, 1000])
+        cases.append((tid, page, address, bytes(rng.randrange(256) for _ in range(ln))))
+    for (tid, page, address, ln) in [(256, 0, 0, 5), (-1, 0, 0, 30), (255, 65536, 0, 30), (255, 0, 65536, 3), (255, 0, 65535, 0), (255, 0, 65535, 24),
+                                     (255, 0, 65535, 25), (255, 0, 65510, 25), (255, 0, 65511, 25), (255, 0, 65500, 80), (255, 0, 65486, 50), (255, 0, 65485, 50)]:
+        cases.append((tid, page, address, bytes(rng.randrange(256) for _ in range(ln))))
+    return cases
+
+
+def gen_wflash_cases(ctx):
+    rng = ctx.rng
+    thorough = ctx.tier == 'thorough'
+    cases = []
+    tid = 0xFF
+    alpha = [o for _, o in named_outcomes(tid)] + [(True, (0xFF, bytes([tid, 0x14, 1, 0])), False), (False, (0xFC, bytes([tid, 0x18, 1, 0])), True)]
+    # exhaustive: every script of length <= 3 over the alphabet, padded with losses (so the first three attempts decide)
+    import itertools
+    for k in range(0, 4):
+        for pre in itertools.product(range(len(alpha)), repeat=k):
+            pad = rng.choice([[], [O_LOST] * 6, [O_RLOST] * 6])
+            cases.append((tid, 0, rng.randrange(0, 40), rng.randrange(1, 11), [alpha[i] for i in pre] + pad, []))
+    # the sixth-attempt quirk and its neighbours
+    for nlost in range(0, 8):
+        for last in (o_ok(tid), o_ok(tid, True), o_neg(tid), None):
+            cases.append((tid, 0, 5, 1, [rng.choice([O_LOST, O_RLOST]) for _ in range(nlost)] + ([last] if last else [O_LOST] * 3), []))
+    for _ in range(1500 if thorough else 300):
+        t = rng.choice([0xFF, 0xFE, 0])
+        a = (rng.choice([t, t, t, t, 256, -1, 300]), rng.choice([0, 0, 0, 1, 65535, 65536, -1]), rng.choice([0, 5, 1023, 65535, 65536, -3]), rng.choice([1, 10, 0, 65535, 65536, -1]))
+        cases.append((a[0], a[1], a[2], a[3], rand_script(rng, t, rng.random() < 0.3), rand_inbox(rng, t)))
+    return cases
+
+
+def correspond(ctx):
+    lines, reals, meta = [], [], []
+    for c in gen_flash_cases(ctx):
+        real, res, link, twin = real_flash_case(c)
+        lines.append(flash_line(c))
+        reals.append(real)
+        ln, ps, bp = len(c['image']), c['ps'], c['bp']
+        nflush = len({(i, x) for i, x in enumerate(link.sent) if len(x[1]) > 1 and x[1][1] == 0x18})
+        ctx.count('flash:result:' + res.split(':')[0] + (':' + res.split(':')[1] if res.startswith('err') else ''))
+        ctx.count('flash:last-page:' + ('n/a' if ps == 0 or ln == 0 else 'full' if ln % ps == 0 else 'partial'))
+        ctx.count('flash:buffers:' + ('n/a' if ps == 0 or bp == 0 or ln == 0 else 'exact-multiple' if n_pages(ln, ps) % bp == 0 else 'final-partial-flush'))
+        ctx.count('flash:write-cmds:' + ('0' if nflush == 0 else '1' if nflush == 1 else '2-6' if nflush <= 6 else '7+'))
+        ctx.count('flash:override:' + ('none' if c['override'] is None else 'set'))
+        ctx.count('flash:terminate_cb:' + ('unset' if c['term'] is None else 'set'))
+        ctx.count('flash:progress_cb:' + ('set' if c['progress'] else 'unset'))
+        ctx.count('flash:geometry:' + ('real' if c['via_info'] else 'small'))
+        ctx.count('flash:stale-inbox:' + ('yes' if c['inbox'] else 'no'))
+        ctx.count('flash:timeouts:' + ','.join(sorted({str(t) for t in link.timeouts})) if link.timeouts else 'flash:timeouts:none')
+        meta.append(('flash', {'op': 'flash', 'geom': [c['key'], ps, bp, c['fp'], c['sp']], 'override': c['override'], 'len': ln, 'script': [fmt_outcome(o) for o in c['script']][:12],
+                               'inbox': len(c['inbox']), 'term': c['term'], 'result': res},
+                     ('flash', c['key'], c['addr'], ps, bp, c['fp'], c['sp'], c['override'], ln, tuple(fmt_outcome(o) for o in c['script']), len(c['inbox']), tuple(c['term'] or ()))))
+    for (tid, page, address, buff) in gen_upload_cases(ctx):
+        lines.append('upload %d %d %d %s' % (tid, page, address, hexs(buff)))
+        r = real_upload(tid, page, address, buff)
+        reals.append(r)
+        ctx.count('upload:result:' + r.split(' ')[0])
+        ctx.count('upload:len%25:' + ('0' if len(buff) % 25 == 0 else 'other'))
+        meta.append(('upload', {'op': 'upload', 'tid': tid, 'page': page, 'address': address, 'len': len(buff)}, ('upload', tid, page, address, len(buff))))
+    for (addr, pb, tp, pc, script, inbox) in gen_wflash_cases(ctx):
+        lines.append('wflash %d %d %d %d %s %s' % (addr, pb, tp, pc, ','.join(fmt_outcome(o) for o in script) or '-',
+                                                   ','.join('%d:%s' % (h, hexs(d)) for h, d in inbox) or '-'))
+        r, link = real_wflash(addr, pb, tp, pc, script, inbox)
+        reals.append(r)
+        ctx.count('wflash:result:' + r.split(' ')[0].split(':')[0] + (':' + r.split(' ')[0].split(':')[1] if r.startswith('err') else ''))
+        ctx.count('wflash:attempts:%d' % len(link.sent))
+        meta.append(('wflash', {'op': 'wflash', 'args': [addr, pb, tp, pc], 'script': [fmt_outcome(o) for o in script][:10], 'inbox': len(inbox)},
+                     ('wflash', addr, pb, tp, pc, tuple(fmt_outcome(o) for o in script), len(inbox))))
+    replies = ctx.lean(DRIVER, lines)
+    for line, real, model, (kind, desc, key) in zip(lines, reals, replies, meta):
+        ctx.case(desc, key)
+        if real != model:
+            ctx.disagree(kind, line[:600], model[:600], real[:600])
+
+
+def search(ctx):
+    pass
